@@ -1,6 +1,7 @@
 package c07
 
 import (
+	"sort"
 	"crypto/ecdsa"
 	"crypto/rsa"
 	"encoding/base64"
@@ -363,6 +364,49 @@ func TestVerif_C07_Jose(t *testing.T) {
 		per = 2000
 	}
 	hostile.Run(m, es, hostile.Options{PerEntryQuick: per, PerEntryThorough: per * 30})
+	if !hostile.Ticks() {
+		// the edge-integer grid: every integer-valued member of every JWK kind replaced by each of the values that break
+		// arithmetic (empty, 0, 1, 2, 3, 255, leading zeros, very long), alone and together with each other member deleted
+		// — what a PRNG finds about once in a thousand tries is enumerated instead
+		edges := []string{"", "AA", "AQ", "Ag", "Aw", "_w", "AAAB", strings.Repeat("_", 800)}
+		n := 0
+		for _, ks := range jwkCorpus {
+			var mp map[string]interface{}
+			if json.Unmarshal([]byte(ks), &mp) != nil {
+				continue
+			}
+			var names []string
+			for k, v := range mp {
+				if _, ok := v.(string); ok && k != "kty" && k != "crv" && k != "kid" && k != "alg" && k != "use" {
+					names = append(names, k)
+				}
+			}
+			sort.Strings(names)
+			for _, a := range names {
+				for _, e := range edges {
+					for bi := -1; bi < len(names); bi++ {
+						v := map[string]interface{}{}
+						for k, x := range mp {
+							v[k] = x
+						}
+						v[a] = e
+						if bi >= 0 {
+							if names[bi] == a {
+								continue
+							}
+							delete(v, names[bi])
+						}
+						in, _ := json.Marshal(v)
+						m.Case()
+						n++
+						m.Guard("jose.JWK+JWKSet", in, func() { m.Class("jwkgrid/" + joseJWK(in)) })
+					}
+				}
+			}
+		}
+		m.Count("jwk_edge_integer_grid_inputs", int64(n))
+		m.Require("jwk_edge_integer_grid_inputs", 300)
+	}
 	for _, e := range es {
 		m.Require("inputs:"+e.Name, 100)
 	}
